@@ -206,3 +206,18 @@ reg("C18", "exploration", "TLA+ laws C18Ok (DataSecure.tla) evaluated by TLC on 
     "TLC judges: plain data to a secured address is reported to the key-issue callback only, outgoing telegrams to it are secured, nothing raises.",
     "Trusted: TLC; authenticated frames are built with the library's own SecureData (octets judged by C19).",
     "DESIGN.md section 5 C18", driver="c15", entry="run18")
+
+reg("C12", "exploration", "TLA+ grammar of a cEMI L_Data frame (CemiLData.tla) evaluated by TLC on every recorded outcome of CEMIFrame.from_knx and of the receive handlers (watchdog, last-resort guards counted)",
+    "Valid frames of every transport PDU x destination kind x APDU length are truncated at every length, substituted at their octets, given additional-info "
+    "variants and trailing octets; every message code with typical bodies, all one-octet strings (all two-octet strings in thorough) and random strings are added. "
+    "TLC judges each outcome of the real parser and of handle_raw_cemi / _cemi_received: only frame / CouldNotParseCEMI / UnsupportedCEMIMessage, never the last-resort "
+    "guard or a hang, and never a frame for octets whose own length fields do not describe an L_Data frame.",
+    "Trusted: TLC, the grammar transcription (anchored by ASSUMEs in the judge module).",
+    "DESIGN.md section 5 C12", driver="c12", entry="run12")
+reg("C13", "exploration", "TLA+ rules BuildOk / ReserialiseOk (CemiLData.tla: frame type, address type, length, hop count, what re-serialising may change) evaluated by TLC on recorded sessions of the real cEMI classes",
+    "Telegrams of every transport PDU x destination kind x APDU length 1..256 x priority / repeat / acknowledge x hop counts -1..8 are turned into link frames, serialised and parsed "
+    "back; every frame accepted by the parser in the C12 plan is serialised again and compared bit by bit. TLC judges: frame type 'standard' exactly up to 15 NPDU octets, address type "
+    "bit = destination kind, NPDU length octet, same addresses / TPDU / payload / flags after parsing, APDUs above 254 octets and hop counts outside 0..7 refused, re-serialising "
+    "changes only the frame type bit, the reserved bit of control field 1 and the reserved application bits of services without data.",
+    "Trusted: TLC; the list of services whose low APCI bits are reserved (GroupValueRead, long group values, IndividualAddressRead / Response / Write).",
+    "DESIGN.md section 5 C13", driver="c12", entry="run13")
